@@ -36,7 +36,7 @@ CFG = {
             "(rejection-sampled with exact integer predicates), spirals, combs, star-shaped rings with holes, multi-geometries with empty and "
             "short members; smooth long runs (arcs, parabolas, flat waves: one output segment replaces 65-500 vertices), size thresholds (63..130, 1023..2049 vertices; 64/65/128/129 members), the same shapes at scales 2^-30..2^30; every input laid out in one flat buffer with spare capacity, first answer re-read after a second call on the operand changed in place; lengths 0..3000; tol from {0,1/4,1/2,1.5,3.5,1e6} and a few others. distinct = distinct input line; non-trivial = "
             "class is not skipped/neartie",
-    "trivial_class": r"^(skipped.*|.*-neartie)$",
+    "trivial_class": r"^(skipped.*|.*-neartie|.*-outofrange)$",
     "timeout": {"quick": 900, "thorough": 3000},
     "impl_mem_gb": 24,
 }
